@@ -550,14 +550,32 @@ fn cli_text(source: &str) -> String {
     s
 }
 
-fn lint_text(program: &rrss::frontend::ast::Program) -> String {
-    let r = rrss::linter::standard_linter().run(program);
+fn diags_text(r: &rrss::linter::LinterResult) -> String {
     let mut s = String::new();
     for d in &r.diags {
         s.push_str(&format!("line {}|{}|{}\n", d.line, d.issue, d.suggestions.join("|")));
     }
     s
 }
+
+/// The lint report of a fresh standard linter, followed - if it differs - by
+/// what the same Linter value reports when it is run on the program a second
+/// time (a repeated run is a repeated run, whoever owns the linter).
+fn lint_text(program: &rrss::frontend::ast::Program) -> String {
+    let mut linter = rrss::linter::standard_linter();
+    let first = diags_text(&linter.run(program));
+    let second = diags_text(&linter.run(program));
+    if first == second {
+        first
+    } else {
+        format!(
+            "{}{}{}",
+            first, SECOND_RUN_MARK, second
+        )
+    }
+}
+
+const SECOND_RUN_MARK: &str = "== second run of the same Linter value reports instead ==\n";
 
 /// One observation of (source, input) under a configuration. Returns the
 /// observation and the dictionary-order probe log.
@@ -867,6 +885,21 @@ impl Property for C10 {
             }
         }
         let base = base.unwrap();
+        if base.lint.contains(SECOND_RUN_MARK) {
+            let mut tags: Vec<String> = features.iter().map(|f| f.to_string()).collect();
+            tags.push("linter-reuse".into());
+            res.violation = Some(Violation {
+                rule: "C10.D3-second-run-of-the-same-linter-differs".into(),
+                detail: "Linter::run on the same Linter value and the same program reports different diagnostics the second time".into(),
+                render: J::obj(vec![
+                    ("program", J::s(source.clone())),
+                    ("lint_reports", J::s(base.lint.clone())),
+                ]),
+                log_hash: hash_combine(key, 0xD3),
+                tags,
+            });
+            return res;
+        }
         if base.result.starts_with("PANIC") {
             stats.inc("count.library_panics_identically");
         }
